@@ -27,6 +27,7 @@ import PfVerif.Driver.Autogreek
 import PfVerif.Driver.Hooks
 import PfVerif.Driver.CritTensor
 import PfVerif.Driver.Factory
+import PfVerif.Driver.FeatReg
 namespace PfVerif.Driver
 open Lean
 
@@ -80,6 +81,7 @@ def dispatch (op : String) (j : Json) : R Json :=
   | "hooked_hedge" => opHookedHedge j
   | "crit_tensor" => opCritTensor j
   | "factory" => opFactory j
+  | "feat_reg" => opFeatReg j
   | _ => .error s!"unknown op {op}"
 
 end PfVerif.Driver
